@@ -637,6 +637,31 @@ func (p *Prog) sortKeyPurity(r *Report, l mapLoop, base ssa.Value, aliases map[s
 				r.Unknown(rule, name, construct, p.Pos(sc.Pos()), "comparator "+p.Name(less)+": "+why)
 				continue
 			}
+			// a cached sequence number: the comparator reads an integer field of elements that also carry the value. The order is
+			// the sequence order only if that field is computed from the value stored in the same element.
+			if est := elemStructOf(nt); est != nil && comp != "v(seq)" {
+				ci, vi := -1, -1
+				for i := 0; i < est.NumFields(); i++ {
+					if est.Field(i).Name() == comp && isIntType(est.Field(i).Type()) {
+						ci = i
+					}
+					if isEmptyIface(est.Field(i).Type()) {
+						vi = i
+					}
+				}
+				if ci >= 0 && vi >= 0 {
+					n, badAt := p.cachedKeyOwnValue(fn, mi.X.Type(), ci, vi)
+					switch {
+					case badAt != "":
+						r.Bad(rule, name, construct, p.Pos(sc.Pos()), "the cached number compared by "+p.Name(less)+" is computed (at "+badAt+") from something other than the value stored in the same element: elements are ordered by a number that is not their own sequence number")
+					case n == 0:
+						r.Unknown(rule, name, construct, p.Pos(sc.Pos()), "no element literal with the compared field found")
+					default:
+						r.OK(rule, name, construct, p.Pos(sc.Pos()), fmt.Sprintf("comparator %s orders by a cached number that each of the %d element literals computes from the value it stores", p.Name(less), n))
+					}
+					continue
+				}
+			}
 			// what does the loop store into that component?
 			bad := ""
 			found := false
@@ -678,6 +703,88 @@ func (p *Prog) sortKeyPurity(r *Report, l mapLoop, base ssa.Value, aliases map[s
 			r.Unknown(rule, name, construct, p.Pos(sc.Pos()), "sort form not modelled")
 		}
 	}
+}
+
+func elemStructOf(nt *types.Named) *types.Struct {
+	sl, ok := nt.Underlying().(*types.Slice)
+	if !ok {
+		return nil
+	}
+	st, _ := sl.Elem().Underlying().(*types.Struct)
+	return st
+}
+
+// cachedKeyOwnValue: in every element literal of the sorted slice's element type built in fn, the value stored in field ci is
+// computed from the value stored in field vi of the same literal and from constants / package variables only.
+func (p *Prog) cachedKeyOwnValue(fn *ssa.Function, sliceT types.Type, ci, vi int) (int, string) {
+	sl, ok := sliceT.Underlying().(*types.Slice)
+	if !ok {
+		return 0, ""
+	}
+	n, bad := 0, ""
+	eachInstr(fn, func(b *ssa.BasicBlock, in ssa.Instruction) {
+		al, ok := in.(*ssa.Alloc)
+		if !ok || !types.Identical(derefType(al.Type()), sl.Elem()) {
+			return
+		}
+		var cv, vv ssa.Value
+		for _, ref := range *al.Referrers() {
+			fa, ok := ref.(*ssa.FieldAddr)
+			if !ok {
+				continue
+			}
+			for _, r2 := range *fa.Referrers() {
+				if st, ok := r2.(*ssa.Store); ok && st.Addr == ssa.Value(fa) {
+					if fa.Field == ci {
+						cv = st.Val
+					}
+					if fa.Field == vi {
+						vv = st.Val
+					}
+				}
+			}
+		}
+		if cv == nil || vv == nil {
+			return
+		}
+		n++
+		// the stored value may be wrapped: interface conversion of the member
+		own := map[ssa.Value]bool{vv: true}
+		if mi, ok := vv.(*ssa.MakeInterface); ok {
+			own[mi.X] = true
+		}
+		seen := map[ssa.Value]bool{}
+		var walk func(v ssa.Value)
+		walk = func(v ssa.Value) {
+			if v == nil || seen[v] || own[v] || bad != "" {
+				return
+			}
+			seen[v] = true
+			switch x := v.(type) {
+			case *ssa.Const, *ssa.Global, *ssa.Function, *ssa.Builtin:
+				return
+			case *ssa.Parameter, *ssa.FreeVar:
+				bad = p.Pos(cv.Pos())
+				return
+			case ssa.Instruction:
+				ops := x.Operands(nil)
+				nonNil := 0
+				for _, op := range ops {
+					if op != nil && *op != nil {
+						nonNil++
+						walk(*op)
+					}
+				}
+				if nonNil == 0 {
+					if _, isAlloc := v.(*ssa.Alloc); !isAlloc {
+						bad = p.Pos(cv.Pos())
+					}
+				}
+			}
+		}
+		walk(cv)
+	})
+	return n, bad
 }
 
 func anyElemDep(fn *ssa.Function, v ssa.Value, dep map[ssa.Value]bool) bool {
@@ -727,6 +834,16 @@ func lessComponent(less *ssa.Function) (string, string) {
 						if a == recv && i < len(h.Params) {
 							scan(h, h.Params[i], depth+1)
 						}
+						// one element handed to a method / function of the element type (e[i].seq())
+						var ia *ssa.IndexAddr
+						if u, ok := a.(*ssa.UnOp); ok && u.Op == token.MUL {
+							ia, _ = u.X.(*ssa.IndexAddr)
+						} else {
+							ia, _ = a.(*ssa.IndexAddr)
+						}
+						if ia != nil && ia.X == recv && i < len(h.Params) {
+							elemComps(h, h.Params[i], comps)
+						}
 					}
 				}
 			}
@@ -748,6 +865,31 @@ func lessComponent(less *ssa.Function) (string, string) {
 		return k, ""
 	}
 	return "", ""
+}
+
+// elemComps: the fields of one element (a struct parameter, by value or by pointer) that the function reads.
+func elemComps(h *ssa.Function, prm *ssa.Parameter, comps map[string]bool) {
+	bases := map[ssa.Value]bool{prm: true}
+	// a value parameter whose address is taken is spilled to an alloc
+	eachInstr(h, func(b *ssa.BasicBlock, in ssa.Instruction) {
+		if st, ok := in.(*ssa.Store); ok && st.Val == ssa.Value(prm) {
+			if a, ok := st.Addr.(*ssa.Alloc); ok {
+				bases[a] = true
+			}
+		}
+	})
+	eachInstr(h, func(b *ssa.BasicBlock, in ssa.Instruction) {
+		switch x := in.(type) {
+		case *ssa.Field:
+			if bases[x.X] {
+				comps[fieldName(x.X.Type(), x.Field)] = true
+			}
+		case *ssa.FieldAddr:
+			if bases[x.X] {
+				comps[fieldName(x.X.Type(), x.Field)] = true
+			}
+		}
+	})
 }
 
 // storeComponent: for a store into an element of one of the aliased slices, which component is written ("*" = whole element).
